@@ -17,9 +17,11 @@ package router
 import (
 	"context"
 	"crypto/tls"
+	"encoding/base64"
 	"fmt"
 	"io"
 	"net"
+	"net/http"
 	"strings"
 	"sync"
 	"testing"
@@ -39,7 +41,7 @@ func TestVerifC03RealStream(t *testing.T) {
 	cuts := []int{1, 2, 3, 14, 30}
 	rep.Rule = fmt.Sprintf("real router from configuration: listeners {tcp, gnet, tls (temporary certificate)} given only protocol and address (every default applies), forward rule to a local UDP upstream; "+
 		"per listener: (a) a query sent as two TCP segments cut after %v octets of the framed message, 60 ms apart, then an ordinary query on the same connection: one matching NOERROR response each; "+
-		"(b) a query the upstream never answers: exactly one SERVFAIL with the query's id on the same connection (waited for up to 9 s), nothing else; distinct = (listener, case)", cuts)
+		"(b) a query the upstream never answers: exactly one SERVFAIL with the query's id on the same connection (waited for up to 9 s), nothing else; (c) DoH listeners {http, https, fasthttp}, defaults: a GET answered by the upstream and one it never answers: HTTP 200 with NOERROR / with the proxy's SERVFAIL; distinct = (listener, case)", cuts)
 	if sh, _ := report.Shard(); sh != 0 {
 		rep.Eval("idle-shard")
 		rep.Eval("idle-shard2")
@@ -65,11 +67,12 @@ func TestVerifC03RealStream(t *testing.T) {
 		}
 	}()
 	kinds := []string{"tcp", "gnet", "tls"}
+	httpKinds := []string{"http", "https", "fasthttp"}
 	var r *router
 	addrs := map[string]string{}
 	for try := 0; try < 3 && r == nil; try++ {
 		cfg := &Config{Upstreams: []UpstreamConfig{{Tag: "u", Addr: "udp://" + upc.LocalAddr().String()}}, Rules: []RuleConfig{{Forward: "u"}}}
-		for _, k := range kinds {
+		for _, k := range append(append([]string{}, kinds...), httpKinds...) {
 			l, err := net.Listen("tcp", "127.0.0.1:0")
 			if err != nil {
 				t.Fatal(err)
@@ -77,7 +80,7 @@ func TestVerifC03RealStream(t *testing.T) {
 			addrs[k] = l.Addr().String()
 			l.Close()
 			sc := ServerConfig{Protocol: k, Listen: addrs[k]}
-			if k == "tls" {
+			if k == "tls" || k == "https" {
 				sc.Tls.DebugUseTempCert = true
 			}
 			cfg.Servers = append(cfg.Servers, sc)
@@ -173,6 +176,45 @@ func TestVerifC03RealStream(t *testing.T) {
 				violate(fmt.Sprintf("C03:real-stream:%s:no-response-to-unanswered-query", k), fmt.Sprintf("listener %s with default settings, upstream silent: no response within 9 s (connection closed by the proxy: %v); expected the proxy's SERVFAIL when the 6 s request deadline passes", k, closed))
 			case ms[0] == nil || ms[0].ID != id || ms[0].RCode() != 2 || !ms[0].Has(refdns.BitQR):
 				violate(fmt.Sprintf("C03:real-stream:%s:bad-response-to-unanswered-query", k), fmt.Sprintf("listener %s: %v", k, ms[0]))
+			}
+		}()
+	}
+	// the DoH listeners (net/http plain and TLS, fasthttp) with every default: a query the upstream never answers gets the proxy's
+	// SERVFAIL in an ordinary HTTP 200 when the request deadline passes - a server-side write / handler time-out below that
+	// deadline would cut the response off
+	for _, k := range httpKinds {
+		k := k
+		wg.Add(1)
+		go func() {
+			defer wg.Done()
+			for ci, name := range []string{"plain", "silent"} {
+				mu.Lock()
+				rep.Eval(k + " " + name + " upstream")
+				mu.Unlock()
+				id := uint16(0x3400 + ci)
+				q := refdns.Query(id, refdns.N(name, "example", "test"), 1, 1).Encode(false)
+				scheme := "http"
+				if k == "https" {
+					scheme = "https"
+				}
+				tr := &http.Transport{TLSClientConfig: &tls.Config{InsecureSkipVerify: true}, ForceAttemptHTTP2: true}
+				hc := &http.Client{Transport: tr, Timeout: 12 * time.Second}
+				req, _ := http.NewRequest("GET", scheme+"://"+addrs[k]+"/dns-query?dns="+base64.RawURLEncoding.EncodeToString(q), nil)
+				req.Header.Set("Accept", "application/dns-message")
+				resp, err := hc.Do(req)
+				var body []byte
+				status := 0
+				if err == nil {
+					status = resp.StatusCode
+					body, _ = io.ReadAll(io.LimitReader(resp.Body, 70000))
+					resp.Body.Close()
+				}
+				tr.CloseIdleConnections()
+				m, _ := refdns.Decode(body)
+				wantRcode := map[string]int{"plain": 0, "silent": 2}[name]
+				if err != nil || status != 200 || m == nil || m.ID != id || m.RCode() != wantRcode || !m.Has(refdns.BitQR) {
+					violate(fmt.Sprintf("C03:real-stream:%s:%s-upstream", k, name), fmt.Sprintf("DoH listener %s with default settings, upstream %s: request error %v, status %d, message %v; expected HTTP 200 with rcode %d within 12 s", k, name, err, status, m, wantRcode))
+				}
 			}
 		}()
 	}
